@@ -154,7 +154,17 @@ class Check(object):
         found = False
         cfg = concrete_cfg.get(q)
         tried = []
-        if cfg:
+        if cfg and cfg.get("searcher"):
+            # a search written for this kind of function (real objects of the repository as arguments)
+            hit = cfg["searcher"](q, self.engine.contracts.get(q))
+            tried.append(q)
+            if hit is not None:
+                replay["failing_input"] = hit.args
+                replay["observed"] = hit.detail
+                replay["replayed_on"] = q
+                wit = json.dumps(hit.args, sort_keys=True, default=str)[:200]
+                found = True
+        elif cfg:
             for target in [q] + list(cfg.get("also", [])):
                 hit = self.search(target, concrete_cfg.get(target, cfg), n=cfg.get("n_search", 4000))
                 tried.append(target)
